@@ -320,6 +320,16 @@ def helpers(ctx):
                 if len(hands) == 2 and len(bodyw) == 2:
                     model_reqs.append({"op": "body_ops", "backend": "numpy", "body": mb, "ops": [{"k": "correct_wrist", "hand": hands[0], "body": bodyw[0]}, {"k": "correct_wrist", "hand": hands[1], "body": bodyw[1]}]})
                     model_meta.append((kind, "correct_wrists", fixed))
+                # … and on the pose pose_hide_legs (hide mode) leaves: points with confidence 0 that are NOT masked — correcting the wrists changes nothing about them
+                hid2 = pose_hide_legs(copy.deepcopy(pose), remove=False)
+                fx2 = correct_wrists(hid2)
+                mh, mf = np.asarray(np.ma.getmaskarray(hid2.body.data)), np.asarray(np.ma.getmaskarray(fx2.body.data))
+                if not (np.array_equal(mf[:, :, oth], mh[:, :, oth]) and np.array_equal(np.asarray(fx2.body.data.data)[:, :, oth], np.asarray(hid2.body.data.data)[:, :, oth])
+                        and np.array_equal(fx2.body.confidence[:, :, oth], hid2.body.confidence[:, :, oth])):
+                    ctx.violation("correct_wrists changes points other than the body wrists", {"format": kind, "after": "pose_hide_legs (hide mode)"}, {"mask_differs": int((mf[:, :, oth] != mh[:, :, oth]).sum())}, True, signature={"clause": "wrists after hide"})
+                mfx = np.asarray(np.ma.getmaskarray(fixed.body.data)); mpo = np.asarray(np.ma.getmaskarray(pose.body.data))
+                if not np.array_equal(mfx[:, :, oth], mpo[:, :, oth]):
+                    ctx.violation("correct_wrists changes points other than the body wrists", {"format": kind}, {"what": "missing flags"}, True, signature={"clause": "wrists mask"})
                 # one hand at a time, its name spelled as callers spell it (the helpers normalise the case themselves): compared with the model's single correction
                 if len(hands) == 2 and len(bodyw) == 2:
                     for spelled in rng.sample(["LEFT", "RIGHT", "left", "right", "Left", "Right"], 3):
